@@ -1,13 +1,19 @@
 """C15 — recording, capture and export agree with what was written.
 
-Correspondence: Lean model (Model/Console.lean: buffer / _check_buffer / _render_buffer / capture / export_text /
-export_html) vs rich.console.Console, in-process, on operation histories.  What `print`/`log`/`rule`/`out` put
-into the thread's buffer is observed (SpyList) and handed to the model; everything downstream - what reaches the
-file and when, the record, what a capture returns, every export - is computed by the model and compared.
-The segments appended by line/control/bell/clear/show_cursor are predicted by the model, not observed.
+Correspondence: Lean model (Model/Console.lean: buffer / _check_buffer / _render_buffer / capture / `with console:` /
+export_text / export_html) vs rich.console.Console, in-process, on operation histories.  What print/log/rule/out put into
+the thread's buffer is observed (SpyList) and handed to the model; everything downstream - what reaches the file and
+when, the record, what a capture returns, every export - is computed by the model and compared.  The segments appended by
+line/control/bell/clear/show_cursor are predicted by the model, not observed.  On "plain" consoles (markup / emoji /
+highlight off) what print of strings / out / rule without title / print() append is DERIVED by the model as well
+(Model/ConsolePrint.lean, request c15_derive) and compared with what rich appended.  A running Live display is driven
+through its public API; the console calls rich makes on its behalf (show_cursor, `with console:`, print, line, control) are
+logged by instance-level wrappers (Tracer) and become the model's operations.  save_text / save_html are export_* plus
+a file that is read back.
 
 Direct evaluation (DESIGN 3d): the executable statements of the theorems in Props/C15.lean on rich's own outputs,
-with oracles that do not use the model: a terminal-stream tokenizer, html.parser, and a twin console for captures.
+with oracles that do not use the model: a terminal-stream tokenizer, html.parser, and a twin console for captures
+(it replays the history so far without the capture blocks, then runs the block's operations outside a capture).
 """
 import copy
 import datetime
@@ -19,7 +25,7 @@ import string
 import functools
 
 from core import enc_bool, enc_opt
-from lib_c15 import PROBE, LogFile, SpyList, canon, decode, read_html, visible, _canon_params
+from lib_c15 import PROBE, LogFile, SpyList, Tracer, canon, decode, loose_params, read_html, visible, _canon_params
 
 PROPERTY = "C15"
 
@@ -83,6 +89,8 @@ def build(r):
         return t
     if k == "ctl":
         return Control(r[1])
+    if k == "sctl":  # a control segment that carries a style (what LiveRender / Segment.make_control produce)
+        return _StyledControl(r[1], S(r[2]))
     if k == "panel":
         return Panel(build(r[1]), title=r[2], style=r[3] or "none")
     if k == "pad":
@@ -95,6 +103,16 @@ def build(r):
             t.add_row(*row)
         return t
     raise ValueError(r)
+
+
+class _StyledControl:
+    def __init__(self, text, style):
+        self.text, self.style = text, style
+
+    def __rich_console__(self, console, options):
+        from rich.segment import Segment
+
+        yield Segment.control(self.text, console.get_style(self.style))
 
 
 def make_console(cfg, record=None):
@@ -113,11 +131,14 @@ def make_console(cfg, record=None):
         record=cfg["record"] if record is None else record,
         _environ=dict(cfg["environ"]),
         log_time=cfg["log_time"],
-        log_path=False,
+        log_path=bool(cfg.get("log_path")),
         get_datetime=lambda: FIXED_DT,
+        **({"markup": False, "emoji": False, "highlight": False} if cfg.get("plain") else {}),
     )
     spy = SpyList()
     c._thread_locals.buffer = spy
+    c._c15_tracer = Tracer(c, spy)
+    c._c15_live = None
     c._c15_cm = bool(cfg.get("cm"))  # harness-side attributes: capture through `with console.capture()` or begin/end_capture
     c._c15_caps = []
     return c, f, spy
@@ -191,11 +212,59 @@ def apply(c, op, theme):
         return c.export_text(clear=op[1], styles=op[2])
     if k == "html":
         return c.export_html(clear=op[1], inline_styles=op[2], code_format=op[3], theme=theme)
+    if k == "save_text":
+        path = _scratch_path()
+        c.save_text(path, clear=op[1], styles=op[2])
+        with open(path, encoding="utf-8", newline="") as fh:
+            return fh.read()
+    if k == "save_html":
+        path = _scratch_path()
+        kw = {} if op[3] is None else {"code_format": op[3]}
+        c.save_html(path, clear=op[1], inline_styles=op[2], theme=theme, **kw)
+        with open(path, encoding="utf-8", newline="") as fh:
+            return fh.read()
+    if k == "enter":
+        c.__enter__()
+        return None
+    if k == "exit":
+        c.__exit__(None, None, None)
+        return None
+    if k == "live_start":
+        from rich.live import Live
+
+        if c._c15_live is None:
+            c._c15_live = Live(build(op[1]), console=c, auto_refresh=False, transient=op[2], redirect_stdout=False, redirect_stderr=False, vertical_overflow=op[3])
+        c._c15_live.start()
+        return None
+    if k == "live_update":
+        if c._c15_live is not None:
+            c._c15_live.update(build(op[1]), refresh=op[2])
+        return None
+    if k == "live_refresh":
+        if c._c15_live is not None:
+            c._c15_live.refresh()
+        return None
+    if k == "live_stop":
+        if c._c15_live is not None:
+            c._c15_live.stop()
+        return None
     raise ValueError(op)
 
 
-PRINTLIKE = ("print", "log", "rule", "out")
-EXPORTS = ("text", "html")
+_SCRATCH = {"dir": None}
+
+
+def _scratch_path():
+    import tempfile
+
+    if _SCRATCH["dir"] is None:
+        _SCRATCH["dir"] = tempfile.mkdtemp(prefix="c15-save-")
+    return os.path.join(_SCRATCH["dir"], "out.txt")
+
+
+PRINTLIKE = ("print", "log", "rule", "out", "print0", "log0")
+EXPORTS = ("text", "html", "save_text", "save_html")
+LIVE = ("live_start", "live_update", "live_refresh", "live_stop")
 
 
 def fresh(st):
@@ -268,8 +337,10 @@ def encode_op(op, segs, enc, theme):
     k = op[0]
     if k in PRINTLIKE:
         return "P:" + enc.line(segs)
-    if k in ("print0", "log0"):
-        return "L:1"
+    if k == "enter":
+        return "E"
+    if k == "exit":
+        return "X"
     if k == "line":
         return f"L:{op[1]}"
     if k == "control":
@@ -284,15 +355,40 @@ def encode_op(op, segs, enc, theme):
         return "<"
     if k == "end":
         return ">"
-    if k == "text":
+    if k in ("text", "save_text"):  # save_text / save_html are export_* followed by a file write
         return f"T:{enc_bool(op[1])}:{enc_bool(op[2])}"
-    if k == "html":
+    if k in ("html", "save_html"):
         t = theme or DEFAULT_TERMINAL_THEME
         items = template_items(CONSOLE_HTML_FORMAT if op[3] is None else op[3])
         if items is None:
             return "?"
         return f"H:{enc_bool(op[1])}:{enc_bool(op[2])}:{enc_str(t.foreground_color.hex)}:{enc_str(t.background_color.hex)}:{items}"
     raise ValueError(op)
+
+
+def encode_events(events, enc):
+    """Primitive console calls made by rich itself during one harness operation (Live.start / refresh / stop …)."""
+    out = []
+    for name, a, kw, segs in events:
+        if name in ("print", "log", "rule", "out"):
+            out.append("P:" + enc.line(segs))
+        elif name == "line":
+            out.append(f"L:{a[0] if a else kw.get('count', 1)}")
+        elif name == "control":
+            out.append("C:" + enc_str(str(a[0])))
+        elif name == "bell":
+            out.append("B")
+        elif name == "clear":
+            out.append("K:" + enc_bool(a[0] if a else kw.get("home", True)))
+        elif name == "show_cursor":
+            out.append("S:" + enc_bool(a[0] if a else kw.get("show", True)))
+        elif name == "_enter_buffer":
+            out.append("E")
+        elif name == "_exit_buffer":
+            out.append("X")
+        else:
+            raise ValueError(name)
+    return out
 
 
 def with_probes(ops, record):
@@ -313,6 +409,76 @@ def with_probes(ops, record):
 CLOSING = [("text", False, False), ("text", False, True), ("html", False, True, None), ("html", False, False, CUSTOM_FMT), ("text", True, False), ("text", False, False)]
 
 
+# ------------------------------------------------------------------ the twin console (oracle for captures)
+def twin_output(cfg, theme, ops_so_far, member_idx):
+    """What the operations with indices `member_idx` (the direct content of a capture block) write to the file when they
+    are run OUTSIDE a capture, in the same history: a second console with the same configuration replays the whole
+    history so far without its capture blocks and exports (so that everything rendering depends on - the Live display's
+    state and last shape, LogRender's last time - evolves exactly as on the real console) and the writes made during the
+    member operations are collected."""
+    twin, tf, _ = make_console(cfg, record=False)
+    members = set(member_idx)
+    out = []
+    for j, o in enumerate(ops_so_far):
+        if o[0] in ("begin", "end") or o[0] in EXPORTS:
+            continue
+        n = len(tf.writes)
+        apply(twin, o, theme)
+        if j in members:
+            out.extend(tf.writes[n:])
+    if twin._c15_live is not None and twin._c15_live._started:
+        twin._c15_live.stop()
+    return "".join(out)
+
+
+# ------------------------------------------------------------------ derived (not observed) buffer appends: Model/ConsolePrint.lean
+try:
+    from props.c02 import FLAGS as WRAP_FLAGS  # the eight WVariant flags belong to properties C05 / C02 / C08
+except Exception:  # pragma: no cover
+    WRAP_FLAGS = "00000000"
+
+OVERFLOW_CODE = {None: "-", "fold": "f", "crop": "c", "ellipsis": "e", "ignore": "i"}
+
+
+def _optbool(b):
+    return "-" if b is None else enc_bool(b)
+
+
+def derive_case(ctx, cfg, c, op, segs):
+    """For the simple paths the model derives what is appended to the buffer: compare with what rich appended."""
+    from rich.style import Style
+
+    k = op[0]
+    enc = Enc()
+    null_id = enc.sid(Style.null())
+    head = [WRAP_FLAGS, cfg["width"], null_id]
+    if k == "print0" or k == "log0":
+        args = ["print0"]
+    elif k == "print":
+        kw = op[2]
+        if not all(r[0] == "s" for r in op[1]) or not set(kw) <= {"sep", "end", "style", "overflow", "no_wrap", "width", "crop", "soft_wrap"}:
+            return
+        st = enc.sid(c.get_style(S(kw["style"]))) if "style" in kw else None
+        args = ["print", enc_str_list([r[1] for r in op[1]]), enc_str(kw.get("sep", " ")), enc_str(kw.get("end", "\n")), enc_opt(st),
+                OVERFLOW_CODE[kw.get("overflow")], _optbool(kw.get("no_wrap")), enc_opt(kw.get("width")), enc_bool(kw.get("crop", True)),
+                _optbool(kw.get("soft_wrap")), "0"]
+    elif k == "out":
+        kw = op[2]
+        if not set(kw) <= {"sep", "end", "style"}:
+            return
+        st = enc.sid(c.get_style(S(kw["style"]))) if "style" in kw else None
+        args = ["out", enc_str_list(list(op[1])), enc_str(kw.get("sep", " ")), enc_str(kw.get("end", "\n")), enc_opt(st)]
+    elif k == "rule":
+        kw = op[2]
+        if op[1] != ("s", "") or not set(kw) <= {"characters", "style", "align"}:
+            return
+        st = enc.sid(c.get_style(S(kw.get("style", "rule.line"))))
+        args = ["rule", enc_str(kw.get("characters", "─")), st]
+    else:
+        return
+    ctx.case("c15_derive", head + args, "ok:" + enc.line(segs), shape=k, sample=f"width={cfg['width']} {op!r}" if len(repr(op)) < 200 else None)
+
+
 # ------------------------------------------------------------------ one history: run, evaluate the property, queue the correspondence
 STATS = {"raised": 0, "histories": 0}
 
@@ -328,21 +494,27 @@ def eval_history(ctx, cfg, ops, tag):
     if cfg["record"]:
         ops = ops + CLOSING
     c, f, spy = make_console(cfg)
+    tr = c._c15_tracer
     enc = Enc()
-    enc_ops = []
-    outs = []
+    enc_ops = []  # model operations (a Live operation expands to the primitive console calls rich made)
+    model_outs = []  # one answer per model operation
+    outs = []  # one answer per harness operation
     desc = {"config": cfg, "ops": ops}
+    live_on = False
 
     since = []  # since the last clearing export: ("w", text written to the file) / ("c", text returned by a capture)
     caps = []  # open capture blocks
-    pending = []  # operations inside open capture blocks since the latest end_capture
-    unbalanced = False  # an end_capture without begin_capture happened: the capture statements are not evaluated any more
+    # an end_capture without begin_capture happened, or the history uses `with console:` blocks (which the capture
+    # statements do not speak about): the capture statements are not evaluated (everything is still compared with the model)
+    unbalanced = any(o[0] in ("enter", "exit") for o in ops)
     last_plain = None  # (index of op, result) of the latest plain non-clearing export
     colour_on = cfg["color_system"] is not None and not (cfg["no_color"] if cfg["no_color"] is not None else "NO_COLOR" in cfg["environ"])
 
     for i, op in enumerate(ops):
         k = op[0]
+        kk = {"save_text": "text", "save_html": "html"}.get(k, k)  # save_* = export_* + a file write
         spy.take()
+        tr.take()
         w0 = len(f.writes)
         rec = list(c._record_buffer)
         try:
@@ -361,11 +533,22 @@ def eval_history(ctx, cfg, ops, tag):
             ctx.check(False, k, desc, f"operation {i} {op!r} raised {type(e).__name__}: {e}")
             return
         segs = spy.take()
+        events = tr.take()
         new_writes = f.writes[w0:]
         ctx.note("op:" + k)
-        e = encode_op(op, segs, enc, theme)
-        enc_ops.append(e)
-        outs.append("A" if err else "-" if res is None else ("c" if k == "end" else "e") + enc_str(canon(res)))
+        out = "A" if err else "-" if res is None else ("c" if k == "end" else "e") + enc_str(canon(res))
+        outs.append(out)
+        if k in LIVE:
+            prim = encode_events(events, enc)
+            enc_ops.extend(prim)
+            model_outs.extend("-" for _ in prim)
+            ctx.note(f"live_primitives:{min(len(prim), 6)}")
+            live_on = k != "live_stop" and c._c15_live is not None and c._c15_live._started
+        else:
+            enc_ops.append(encode_op(op, segs, enc, theme))
+            model_outs.append(out)
+            if cfg.get("plain") and not live_on and not err:
+                derive_case(ctx, cfg, c, op, segs)
 
         # ---- direct evaluation of the property on what rich did
         if k == "end" and not caps:
@@ -377,50 +560,34 @@ def eval_history(ctx, cfg, ops, tag):
             ctx.check(False, "file.write", desc, "an empty string was written")
         since.extend(("w", w) for w in new_writes)
         if k == "begin":
-            caps.append({"ops": [], "all": [], "inner": []})
+            caps.append({"idx": [], "nested": False})
         elif k == "end":
             if caps and unbalanced:
                 caps.pop()
             elif caps:
                 blk = caps.pop()
 
-                def twin_output(block_ops):
-                    twin, tf, _ = make_console(cfg, record=False)
-                    for o in block_ops:
-                        apply(twin, o, theme)
-                    return "".join(tf.writes)
-
-                want = twin_output(blk["ops"])
+                want = twin_output(cfg, theme, ops[:i], blk["idx"])
                 ok = canon(res) == canon(want)
                 finding = None
-                if not ok and (blk["inner"] or caps):
-                    # narrow classifier: a block that is nested, or has nested blocks.  `end_capture` returns the
-                    # whole thread buffer - everything printed since the previous end_capture, whichever block it
-                    # was printed in - instead of what was printed inside this block.
-                    if canon(res) == canon(twin_output(pending)):
-                        finding = "nested-capture-steals"
-                ctx.check(ok, "capture", desc, f"capture ending at op {i} returned {res!r}; the operations directly inside it, run outside a capture, write {want!r}", finding=finding)
-                ctx.note("capture:" + ("nested" if blk["inner"] else "empty" if not want else "nonempty"))
+                ctx.check(ok, "capture", desc, f"capture ending at op {i} returned {res!r}; the operations directly inside it, run outside a capture (after the same history), write {want!r}", finding=finding)
+                ctx.note("capture:" + ("nested" if blk["nested"] or caps else "empty" if not want else "nonempty") + (":live" if live_on else ""))
                 if caps:
-                    caps[-1]["all"] += blk["all"]
-                    caps[-1]["inner"] += blk["inner"] + [res]
+                    caps[-1]["nested"] = True
             since.append(("c", res))
-            pending = []
         elif k not in EXPORTS and caps:
-            caps[-1]["ops"].append(op)
-            caps[-1]["all"].append(op)
-            pending.append(op)
+            caps[-1]["idx"].append(i)
         if err:
             continue
-        if k == "text" and not op[2]:
+        if kk == "text" and not op[2]:
             want = visible("".join(t for kind, t in since if kind == "w"))
             finding = None
             if res != want and res == visible("".join(t for _, t in since)) and any(kind == "c" and visible(t) for kind, t in since):
                 finding = "capture-recorded"
             ctx.check(res == want, "export_text", desc, f"export_text at op {i} is {res!r}; the visible text written to the file since the last clearing export is {want!r}", finding=finding)
-            if not op[1]:
+            if not op[1] and k == "text":
                 last_plain = (i, res)
-        elif k == "text" and op[2]:
+        elif kk == "text" and op[2]:
             ref = last_plain[1] if last_plain and last_plain[0] == i - 1 else None
             got = decode(res)
             if ref is not None:
@@ -436,12 +603,15 @@ def eval_history(ctx, cfg, ops, tag):
                     want.extend((ch, None, None) for ch in s.text)
             ctx.check(got == want, "export_text(styles)", desc, f"styled export at op {i} does not decode to the recorded characters with their styles")
             if colour_on and not cfg["legacy_windows"]:
-                fdec = decode("".join(t for kind, t in since if kind == "w"))
+                # the styled export is TRUECOLOR; on another colour system the file carries the downgraded colours
+                loose = (lambda l: l) if cfg["color_system"] == "truecolor" else (lambda l: [(ch, sg and loose_params(sg), ln) for ch, sg, ln in l])
+                fdec = loose(decode("".join(t for kind, t in since if kind == "w")))
+                got = loose(got)
                 finding = None
-                if got != fdec and got == decode("".join(t for _, t in since)) and any(kind == "c" and visible(t) for kind, t in since):
+                if got != fdec and got == loose(decode("".join(t for _, t in since))) and any(kind == "c" and visible(t) for kind, t in since):
                     finding = "capture-recorded"
                 ctx.check(got == fdec, "export_text(styles) vs file", desc, f"styled export at op {i} and the file decode to different (character, style, link) streams", finding=finding)
-        elif k == "html":
+        elif kk == "html":
             ref = last_plain[1] if last_plain and last_plain[0] == i - 1 else None
             chars, bad = read_html(res)
             want = []
@@ -502,7 +672,7 @@ def eval_history(ctx, cfg, ops, tag):
     head = [f"{RECORD_IN_RENDER}{MERGE_CTL}{ESCAPE_HREF}{CAPTURE_MARKS}", model_config(cfg), table, "/".join(enc_ops)]
     shape = f"{tag}:len{min(len(ops) // 5 * 5, 40)}"
     sample = f"{cfg!r} {ops!r}" if len(repr(ops)) < 700 else None
-    answer = "\t".join([enc_str_list([canon(w) for w in f.writes]), ",".join(outs), final_rec, final_state])
+    answer = "\t".join([enc_str_list([canon(w) for w in f.writes]), ",".join(model_outs), final_rec, final_state])
     ctx.case("c15_hist", head + ["all"], answer, shape=shape, sample=sample)
     ctx.note(f"styles:{min(len(enc.reps), 8)}")
     ctx.note(f"cfg:cs={cfg['color_system']},term={cfg['force_terminal']},nocolor={cfg['no_color']}")
@@ -622,6 +792,8 @@ def gen_renderable(rng, bad_links, depth=0):
     if r < 0.95:
         cols = rng.randint(1, 3)
         return ("table", [rng.choice(WORDS) for _ in range(cols)], [[rng.choice(WORDS) for _ in range(cols)] for _ in range(rng.randint(0, 2))], rng.random() < 0.7, rng.choice([None, "green"]))
+    if rng.random() < 0.5:
+        return ("sctl", rng.choice(CTL_CODES), rng.choice(["bold", "red", "link http://e.x/"]))
     return ("ctl", rng.choice(CTL_CODES))
 
 
@@ -692,9 +864,9 @@ def gen_op(rng, depth, bad_links, record):
     if r < 0.86:
         return ("end",) if depth > 0 else ("begin",)
     if r < 0.93:
-        return ("text", rng.random() < 0.4, rng.random() < 0.4)
+        return (rng.choice(["text", "text", "save_text"]), rng.random() < 0.4, rng.random() < 0.4)
     fmt = rng.choice([None, None, CUSTOM_FMT, "{code}", "<pre>{code}</pre><style>{stylesheet}</style>{background}{foreground}"])
-    return ("html", rng.random() < 0.4, True if fmt == "{code}" else rng.random() < 0.5, fmt)
+    return (rng.choice(["html", "html", "save_html"]), rng.random() < 0.4, True if fmt == "{code}" else rng.random() < 0.5, fmt)
 
 
 def gen_config(rng):
@@ -714,10 +886,99 @@ def gen_config(rng):
         legacy_windows=rng.random() < 0.12,
         environ=env,
         record=True,
-        log_time=False,  # LogRender omits a repeated time: with it on, what log() renders depends on earlier logs (twin oracle)
+        log_time=rng.random() < 0.4,  # LogRender omits a repeated time: the twin oracle replays the history, so it is in the same state
+        log_path=rng.random() < 0.3,  # the caller is fixed: Tracer's wrapper around console.log
         theme=rng.random() < 0.25,
         cm=rng.random() < 0.5,
+        plain=False,
     )
+
+
+PLAIN_WORDS = ["a", "bc", "あ", "def ghi", " ", "  x", "y  ", "\n", "a\nb", "\t", "a\tb", "é̀", "long-word-without-break", "", "😽 z", "<&>", "[b]", ":smile:", "12 None"]
+PLAIN_STYLES = ["bold", "red on blue", "none", "link http://e.x/", "italic"]
+
+
+def gen_plain_op(rng):
+    """Operations whose buffer appends the model derives (Model/ConsolePrint.lean)."""
+    r = rng.random()
+    if r < 0.5:
+        kw = {}
+        if rng.random() < 0.3:
+            kw["sep"] = rng.choice(["", " ", ", ", "\n"])
+        if rng.random() < 0.3:
+            kw["end"] = rng.choice(["", " ", "\n\n", "!"])
+        if rng.random() < 0.3:
+            kw["style"] = rng.choice(PLAIN_STYLES)
+        if rng.random() < 0.25:
+            kw["overflow"] = rng.choice(["fold", "crop", "ellipsis", "ignore"])
+        if rng.random() < 0.2:
+            kw["no_wrap"] = rng.random() < 0.6
+        if rng.random() < 0.2:
+            kw["width"] = rng.choice([0, 1, 2, 3, 5, 9, 100])
+        if rng.random() < 0.15:
+            kw["crop"] = False
+        if rng.random() < 0.15:
+            kw["soft_wrap"] = rng.random() < 0.7
+        return ("print", [("s", rng.choice(PLAIN_WORDS)) for _ in range(rng.choice([1, 1, 2, 3]))], kw)
+    if r < 0.65:
+        kw = {}
+        if rng.random() < 0.3:
+            kw["sep"] = rng.choice(["", "-"])
+        if rng.random() < 0.3:
+            kw["end"] = rng.choice(["", "\n\n"])
+        if rng.random() < 0.3:
+            kw["style"] = rng.choice(PLAIN_STYLES)
+        return ("out", [rng.choice(PLAIN_WORDS) for _ in range(rng.choice([1, 2, 3]))], kw)
+    if r < 0.8:
+        kw = {}
+        if rng.random() < 0.5:
+            kw["characters"] = rng.choice(["=", "-+", "あ", "─ ", "ab c", "é"])
+        if rng.random() < 0.4:
+            kw["style"] = rng.choice(PLAIN_STYLES)
+        if rng.random() < 0.2:
+            kw["align"] = rng.choice(["left", "right"])
+        return ("rule", ("s", ""), kw)
+    if r < 0.9:
+        return (rng.choice(["print0", "log0"]),)
+    return ("line", rng.choice([0, 1, 2]))
+
+
+def gen_live_history(rng, n):
+    """A Live display (auto_refresh off, no stdout redirection) around prints, captures and exports."""
+    ops = [("live_start", gen_renderable(rng, False, 1), rng.random() < 0.3, rng.choice(["crop", "ellipsis", "visible"]))]
+    depth = 0
+    for _ in range(n):
+        r = rng.random()
+        if r < 0.3:
+            ops.append(("print", [gen_renderable(rng, False, 1)], {}))
+        elif r < 0.38:
+            ops.append(("log", [gen_renderable(rng, False, 2)], {}))
+        elif r < 0.5:
+            ops.append(("live_update", gen_renderable(rng, False, 1), rng.random() < 0.5))
+        elif r < 0.6:
+            ops.append(("live_refresh",))
+        elif r < 0.72:
+            ops.append(("begin",))
+            depth += 1
+        elif r < 0.84:
+            if depth:
+                ops.append(("end",))
+                depth -= 1
+            else:
+                ops.append((rng.choice(["print0", "bell"]),))
+        elif r < 0.9:
+            ops.append(("line", 1))
+        elif r < 0.95:
+            ops.append(("text", rng.random() < 0.3, rng.random() < 0.5))
+        else:
+            ops.append(("live_stop",))
+            ops.append(("live_start", gen_renderable(rng, False, 1), rng.random() < 0.3, "ellipsis"))
+    if rng.random() < 0.8:
+        ops.insert(rng.randint(1, len(ops)), ("live_stop",))
+    while depth > 0 and rng.random() < 0.8:
+        ops.append(("end",))
+        depth -= 1
+    return ops
 
 
 def gen_history(rng, n, bad_links, balanced=True):
@@ -743,12 +1004,16 @@ def run(ctx):
     ctx.assumptions += [
         "styles are opaque to the console model: style.render(text) = pre ++ text ++ post, bool(style), without_color, "
         "get_html_style(theme) and link are parameters read off the real Style objects for every case (their meaning is C03/C06's subject)",
-        "what print/log/rule/out append to the thread's buffer (rendering + split_and_crop_lines) is an input of the model, observed on the real console",
-        "escape codes are compared after canonicalisation: link ids stripped, colour parameters of SGR sequences replaced by F/B "
-        "(introduced because in rich 9.10.0 as found Style._ansi was cached without the colour system - F7 of C03, repaired by fix c9ec5a8 - so exact "
-        "colour codes depended on which console rendered a shared Style first; exact colour codes are C03's subject, here they stay canonicalised)",
+        "what print/log/rule/out append to the thread's buffer (rendering + split_and_crop_lines) is an input of the model, observed on the real "
+        "console - except on plain consoles (markup/emoji/highlight off, justify None, console.style None) for print of strings, out, rule without "
+        "title and print()/log() without objects, where Model/ConsolePrint.lean derives it from the models of C05 (Text), C02 (wrap), C13 (crop) and "
+        "C08 (rule text) with the variant flags of props.c02; log() with objects stays observed (LogRender builds a Table)",
+        "escape codes are compared exactly apart from the random link ids (Style._ansi is keyed by colour system since fix c9ec5a8); only the "
+        "comparison of the TRUECOLOR styled export with a file written for another colour system ignores the colour parameters",
         "visible text = non-control segment text; generated texts contain no C0 control codes or ESC; control segments contain only escape sequences / C0 codes",
-        "single thread; is_jupyter False; no render hooks (Live); pager and save_* are out of scope",
+        "a Live display enters the model as the sequence of console calls rich makes for it (logged by wrappers that leave the calls unchanged); "
+        "its own logic (LiveRender shape, cursor codes) is C10's subject",
+        "single thread; is_jupyter False; the pager is out of scope; log_time uses an injected get_datetime and log_path a fixed caller",
     ]
 
     # ---- 1. bounded-exhaustive: every history of <= L operations over SMALL_OPS (12 operations, capture blocks never
@@ -794,6 +1059,71 @@ def run(ctx):
         eval_history(ctx, cfg, ops, "malformed")
     ctx.flush()
 
+    # ---- 4b. plain consoles (markup / emoji / highlight off): what print / out / rule / print() append is DERIVED by the model
+    n_plain = 250 if ctx.quick else 8000
+    for _ in range(n_plain):
+        cfg = gen_config(rng)
+        cfg["plain"] = True
+        cfg["width"] = rng.choice([0, 1, 2, 3, 4, 5, 7, 10, 20, 80])
+        ops = []
+        depth = 0
+        for _ in range(rng.randint(1, 8)):
+            if rng.random() < 0.7:
+                ops.append(gen_plain_op(rng))
+            else:
+                op = gen_op(rng, depth, False, True)
+                if op[0] in ("print", "log", "rule", "out"):
+                    op = gen_plain_op(rng)
+                depth += {"begin": 1, "end": -1}.get(op[0], 0)
+                ops.append(op)
+        eval_history(ctx, cfg, ops, "plain")
+    # every list of <= 2 strings <= 2 characters over the characters wrapping branches on, at every width 0..5
+    alpha = ["a", " ", "\n", "\t", "あ"]
+    strs = ["".join(t) for k in range(0, 3) for t in itertools.product(alpha, repeat=k)]
+    n_ex = 0
+    for w in range(0, 6):
+        cfg = cfg_with(plain=True, width=w, color_system=None, force_terminal=False, record=False)
+        for s1 in strs:
+            for s2 in ([None] + strs[:6] if not ctx.quick or w in (1, 3) else [None]):
+                objs = [("s", s1)] + ([("s", s2)] if s2 is not None else [])
+                for kw in ({}, {"end": ""}, {"overflow": "ellipsis"}, {"no_wrap": True, "crop": False}):
+                    eval_history(ctx, cfg, [("print", objs, kw)], "plain-small")
+                    n_ex += 1
+                eval_history(ctx, cfg, [("out", [o[1] for o in objs], {})], "plain-small")
+        for chars in ["-", "ab", "あ", "a "]:
+            eval_history(ctx, cfg, [("rule", ("s", ""), {"characters": chars})], "plain-small")
+    ctx.note("plain_small", n_ex)
+    ctx.flush()
+
+    # ---- 4c. a running Live display around prints, captures and exports
+    n_live = 120 if ctx.quick else 4000
+    for _ in range(n_live):
+        cfg = gen_config(rng)
+        cfg["force_terminal"] = rng.choice([True, True, True, False])
+        cfg["width"] = rng.choice([8, 12, 20, 40])
+        eval_history(ctx, cfg, gen_live_history(rng, rng.randint(1, 9)), "live")
+    ctx.flush()
+
+    # ---- 4d. `with console:` blocks (enter / exit), also mixed with capture blocks and unbalanced
+    n_ctx = 150 if ctx.quick else 4000
+    for _ in range(n_ctx):
+        cfg = gen_config(rng)
+        ops = gen_history(rng, rng.randint(1, 8), bad_links=False, balanced=False)
+        for _ in range(rng.randint(1, 3)):
+            a = rng.randint(0, len(ops))
+            ops.insert(a, ("enter",))
+            if rng.random() < 0.8:
+                ops.insert(rng.randint(a + 1, len(ops)), ("exit",))
+        if rng.random() < 0.15:
+            ops.insert(rng.randint(0, len(ops)), ("exit",))
+        eval_history(ctx, cfg, ops, "bufferctx")
+    ctx.flush()
+    if _SCRATCH["dir"]:
+        import shutil
+
+        shutil.rmtree(_SCRATCH["dir"], ignore_errors=True)
+        _SCRATCH["dir"] = None
+
     ctx.check(STATS["raised"] * 50 <= STATS["histories"], "print", dict(STATS), "more than 2% of the generated histories were dropped because rendering raised")
 
     # ---- 5. escape on every string <= 4 over the characters it branches on
@@ -811,7 +1141,10 @@ def run(ctx):
         "followed by 6 closing exports; + seeded random histories "
         "(<= 14 operations over print/log/rule/out/line/control/bell/clear/show_cursor/capture/export with Text, markup, Panel, "
         "Padding, Styled, Table, Control renderables) x random configurations; + links needing attribute escaping; + malformed "
-        "(unbalanced end_capture, record=False, empty link). distinct = distinct canonical requests (4 observations per history)"
+        "(unbalanced end_capture, record=False, empty link); + plain consoles where the buffer appends of print/out/rule/print() are derived "
+        "(random histories, and every list of <= 2 strings <= 2 characters over {a, space, newline, tab, wide} x widths 0..5 x 4 option sets); "
+        "+ histories around a running Live display; + `with console:` blocks mixed with captures, also unbalanced; save_text/save_html among "
+        "the exports. distinct = distinct canonical requests (one per history with 4 observations, one per derived append)"
         % (L, len(configs))
     )
 
@@ -853,7 +1186,8 @@ def _detuple(o):
 
 MANIFEST = {
     "text": "Lean 4 theorems (Props/C15.lean) over an executable model of Console's buffer / _check_buffer / _render_buffer / "
-    "begin_capture / end_capture / line / control / bell / clear / show_cursor / export_text / export_html (Model/Console.lean), "
+    "begin_capture / end_capture / `with console:` / line / control / bell / clear / show_cursor / export_text / export_html "
+    "(Model/Console.lean), "
     "for operation histories of any length, every console configuration the code branches on (record, colour system None or "
     "not, terminal or not, dumb TERM, NO_COLOR, legacy_windows) and every style table: record_tracks_file (the record grows by "
     "exactly the buffers that are rendered for the file, in order) => export_text_eq_visible (exported text = text of the "
@@ -863,7 +1197,15 @@ MANIFEST = {
     "wrapper of their own segment's style; equal to the file's stream when colour is on); capture_returns_and_withholds (a "
     "block returns character for character what the same operations write outside a capture, nothing reaches the file "
     "while the depth is >= 1, nothing is recorded; capture_block_transparent: with the repaired marks a block at any depth "
-    "returns its own output and leaves the enclosing block untouched); clear_semantics; reachable_outside_empty. Proved for "
+    "returns its own output and leaves the enclosing block untouched); capture_nesting (ONE theorem: on every well-bracketed "
+    "history, nested to any depth and possibly left open, the console refines a specification machine with one frame per open "
+    "block - each block returns exactly its own output, enclosing frames untouched, nothing reaches file or record meanwhile - "
+    "plus, for arbitrary unbalanced sequences, totality, depth arithmetic, no write at non-zero depth of either sign, and what "
+    "a surplus end_capture returns); export_html_document (any code_format containing {code} once keeps the code intact; the "
+    "document with tags removed is template text + escaped exported text + template text; default template obligations proved "
+    "on the table translated from rich/console.py each run); export_html_stylesheet (one rule per distinct CSS rule in first-use "
+    "order numbered r1..rn, numbering injective, every class looked up in the final table, stylesheet lines); clear_semantics; "
+    "reachable_outside_empty. Proved for "
     "the repaired variant, which is what /repo contains now (fixes 114bbe8, e488480, 1202b8a; b97fe77 for simplify); the witnesses "
     "old_capture_is_recorded, old_href_breaks_html, old_simplify_bell_in_html and nested_capture_steals (by evaluation) show rich 9.10.0 "
     "as found violating them. Tie: ~8k (quick) / ~250k (thorough) histories per run executed on real "
@@ -872,15 +1214,18 @@ MANIFEST = {
     "html.parser, twin console).",
     "note": "Partial / assumed: (1) styles are opaque ids; style.render(text) = pre+text+post, bool(style), without_color, "
     "get_html_style, link are parameters read off the real Style objects per case (their meaning is C03/C06). (2) What "
-    "print/log/rule/out append to the buffer (rendering, split_and_crop_lines) is an input observed on the real console, not "
-    "modelled. (3) 'Visible text of the file' is stated on structured pieces (escape wrapper / text / control), and HTML tags on "
+    "print/log/rule/out append to the buffer (rendering, split_and_crop_lines) is an input observed on the real console; only "
+    "for print of strings / out / title-less rule / print() on plain consoles is it derived in the model (Model/ConsolePrint.lean, "
+    "compared with rich per operation; no theorem is stated about that derivation). log() with objects and every other "
+    "renderable stay observed. (3) 'Visible text of the file' is stated on structured pieces (escape wrapper / text / control), and HTML tags on "
     "structured fragments for which the string-level stripTags is proved; the string-level reading of ANSI escapes is done by the "
-    "harness tokenizer only. (4) Escape codes are compared after canonicalising link ids and SGR colour parameters (in rich 9.10.0 as found F7 "
-    "made exact colour codes history dependent; repaired by c9ec5a8, the canonicalisation is kept: exact codes are C03's subject). (5) Nested capture blocks: capture_returns_and_withholds / capture_block_transparent speak of "
-    "one block whose direct content has no begin/end; arbitrary nesting follows by composing them but is not stated as one "
-    "theorem. In rich 9.10.0 as found (before fix 1202b8a) an inner end_capture returned the enclosing block's pending output (witness "
-    "nested_capture_steals, finding nested-capture-steals). (6) Only the {code} part of the HTML document is covered by export_html_text; the template is "
-    "covered by the correspondence. (7) Single thread, is_jupyter False, no render hooks, pager and save_* out of scope. "
+    "harness tokenizer only. (4) Escape codes are compared exactly except for the random link ids. "
+    "(5) `with console:` blocks (enterBuffer / exitBuffer) are in the model, the correspondence and record_tracks_file, but the "
+    "capture statements (capture_nesting, wellNested) exclude histories that contain them. A Live display is covered as the "
+    "console calls rich makes for it; its own logic is C10's. In rich 9.10.0 as found (before fix 1202b8a) an inner end_capture returned the enclosing block's pending output (witness "
+    "nested_capture_steals, finding nested-capture-steals). (6) The whole-document theorem is at the tags-removed level (entity decoding is "
+    "proved for the code part); it needs the text before {code} to end outside a tag, proved for the default template. "
+    "(7) Single thread, is_jupyter False, pager out of scope; save_text/save_html are compared as export + file read back. "
     "Findings of this property, all repaired in /repo: capture-recorded (F17, fix 114bbe8), html-href-unescaped (fix e488480), "
     "nested-capture-steals (fix 1202b8a); the flag constants hold the repaired values.",
     "design_ref": "DESIGN.md section 7, C15",
